@@ -235,6 +235,64 @@ def reduce_inv(p, rn):
 from .mirsym import INV_REG
 
 
+U32_OPERANDS = {"U32add": 2, "U32sub": 2, "U32mul": 2, "U32div": 2, "U32add3": 3, "U32madd": 3, "U32and": 2, "U32xor": 2}
+
+
+def int_normalise(V, op, r, q, rn):
+    """rewrite the machine-integer terms of a residual constraint into their integer normal form (vlib/intnorm.py), add the
+    relations given by the path's guards on integer terms, eliminate and return the remaining polynomial (None if not applicable)"""
+    from .intnorm import Norm, NormError
+    bounds = {"as_int(s%d)" % i: 2 ** 32 - 1 for i in range(U32_OPERANDS.get(op, 0))}
+    N = Norm(bounds, procmodel.FELT_TERMS)
+    sub = {}
+    try:
+        for v in q.vars():
+            if v in procmodel.FELT_TERMS:
+                pv, ub = N.val(procmodel.FELT_TERMS[v])
+                if ub >= P:
+                    return None
+                sub[v] = rn(pv)
+        q2 = q.subst(sub)
+        rels = []
+        for cond, val, loc in r.guards:
+            if isinstance(cond, Term) and cond.op in ("&", ">>", "as_int", "as_u32", "as_u64", "/", "+", "-", "*"):
+                try:
+                    pv, ub = N.val(cond)
+                except NormError:
+                    continue
+                pv = rn(pv)
+                if isinstance(val, int) and not isinstance(val, bool):
+                    rels.append(pv - Poly.const(val))
+                elif isinstance(val, tuple) and val[0] == "not" and ub <= 1 and len(val[1]) == 1:
+                    rels.append(pv - Poly.const(1 - val[1][0]))
+    except NormError:
+        return None
+    # bits: a^2 = a
+    def reduce_bits(pp):
+        out = {}
+        for m, c in pp.t.items():
+            mm = tuple(sorted((v, 1 if v in N.binary else e) for v, e in m))
+            out[mm] = (out.get(mm, 0) + c) % P
+        return Poly({m: c for m, c in out.items() if c})
+    q2 = reduce_bits(q2)
+    # eliminate with the guard relations (a variable occurring linearly with a constant coefficient)
+    for rel in rels:
+        rel = reduce_bits(rel)
+        if rel.is_zero():
+            continue
+        done = False
+        for v in sorted(rel.vars(), key=lambda x: (not x.startswith(("hi", "quot")), x)):
+            if rel.degree_in(v) == 1:
+                co = rel.coeff_of(v, 1)
+                if co.const_value():
+                    sol = rel.without(v).scale((-pow(co.const_value(), -1, P)) % P)
+                    q2 = reduce_bits(q2.subst({v: sol}))
+                    rels = [x.subst({v: sol}) for x in rels]
+                    done = True
+                    break
+    return q2
+
+
 def r3_substitution(ctx, F, M):
     V = AirView(F)
     lo, hi = V.srange
@@ -274,7 +332,19 @@ def r3_substitution(ctx, F, M):
                     opaque = [v for v in q.vars() if not re.match(r"^[cn]\d+$", v)]
                     unsub = [v for v in q.vars() if v.startswith("n") or v.startswith("c%d" % V.A.helpers)]
                     if opaque or unsub:
-                        undec += 1      # depends on values the model treats as fresh (limbs, memory, advice): not decided
+                        q2 = int_normalise(V, op, r, q, rn)
+                        if q2 is not None and q2.is_zero():
+                            ctx.oblig(True)
+                            ctx.extra["decided_by_integer_normal_form"] = ctx.extra.get("decided_by_integer_normal_form", 0) + 1
+                            continue
+                        if q2 is not None and not [v for v in q2.vars() if not re.match(r"^[cn]\d+$|^hi\d+<|^quot<", v)]:
+                            ctx.oblig(False)
+                            ctx.violation("handler-vs-constraint|%s|int|%s" % (op, V.pretty(q2).replace(" ", "")[:120]), "processor/src/operations",
+                                          "substituting the next row and helper values computed by the %s handler (%s) into transition constraint #%d leaves %s after integer normalisation (x = low + 2^k*high, a = q*b + r): an honest trace of %s violates the AIR"
+                                          % (op, variant, ci, V.pretty(q2)[:200], op), facts={"constraint": V.pretty(p)})
+                            continue
+                        undec += 1      # depends on values the model treats as fresh (memory, advice, hasher results): not decided
+                        ctx.extra.setdefault("undecided_list", []).append("%s|%s|c%d: %s" % (op, variant, ci, V.pretty(q2 if q2 is not None else q)[:120]))
                         continue
                     ctx.oblig(False)
                     ctx.violation("handler-vs-constraint|%s|%s" % (op, V.pretty(q).replace(" ", "")), "processor/src/operations",
